@@ -198,6 +198,8 @@ def run_encrypt(step, d, outdir, key, route, holder=None):
                 fh.write(used_key)
             kd = None
         if route == "cli":
+            with open(os.path.join(d, kname + ".bin"), "wb") as fh:
+                fh.write(bytes(b ^ 0xA5 for b in used_key))  # a file called like the key in the working directory of the process: not the key
             ok, r = sut.cli_ok(["encrypt", "encrypt-and-generate", "--firmware", fw, "--key-name", kname, "--key-id", str(step["kid"]) if step.get("kid_spelling", "dec") == "dec" else hex(step["kid"])] + (["--context", kd] if kd else []) +
                                ["--output-dir", outdir, "--hash-alg", step["hash"], "--kms-script", kms, "--encrypt-script", sut.ENCRYPT_SCRIPT()], d)
             if not ok:
